@@ -337,6 +337,9 @@ func (r *c05Ref) eval(e *cx) rv {
 			}
 			bail("missing-attr")
 		case vArr:
+			if key.k == vNull {
+				bail("index-null") // PHP uses the key "" for null, stick the index 0: not specified here
+			}
 			n := key.num("index-non-numeric")
 			if key.k == vStr && e.kind == "idx" {
 				bail("index-non-numeric")
@@ -904,9 +907,76 @@ func c05UnaryPostfix(i int) core.Result {
 
 const c05UnaryPostfixN = 17
 
+// c05Ladder: conditionals written one after the other without parentheses. shape 0 is the else-ladder
+// c1 ? a1 : c2 ? a2 : ... : z, which yields the result of the first true condition and evaluates only the conditions up
+// to it and that one result; shape 1 nests in the true branch: c1 ? c2 ? a : b : z. bits gives the conditions' values.
+func c05Ladder(shape, k, bits int) core.Result {
+	cond := func(i int) (string, bool) {
+		if bits>>uint(i)&1 == 1 {
+			return "r(" + itoa(100+i) + ")", true
+		}
+		return "r(0)", false
+	}
+	src, want := "", ""
+	var wantLog []string
+	if shape == 0 {
+		done := false
+		for i := 0; i < k; i++ {
+			cs, cv := cond(i)
+			src += cs + " ? r(" + itoa(10+i) + ") : "
+			if !done {
+				wantLog = append(wantLog, cs)
+				if cv {
+					done = true
+					want = itoa(10 + i)
+					wantLog = append(wantLog, "r("+itoa(10+i)+")")
+				}
+			}
+		}
+		src += "r(99)"
+		if !done {
+			want = "99"
+			wantLog = append(wantLog, "r(99)")
+		}
+	} else {
+		// c0 ? c1 ? ... ? r(50) : r(60+k-1) ... : r(60)
+		tail := ""
+		for i := 0; i < k; i++ {
+			cs, _ := cond(i)
+			src += cs + " ? "
+			tail = " : r(" + itoa(60+i) + ")" + tail
+		}
+		src += "r(50)" + tail
+		want = "50"
+		for i := 0; i < k; i++ {
+			cs, cv := cond(i)
+			wantLog = append(wantLog, cs)
+			if !cv {
+				want = itoa(60 + i)
+				break
+			}
+		}
+		wantLog = append(wantLog, "r("+want+")")
+	}
+	src = "{{ " + src + " }}"
+	var log []string
+	out, err, pan := tryExec(c05Env(&log), src, nil)
+	if pan != "" || err != nil {
+		return core.Violation("error", fmt.Sprintf("%q: %v %s", src, err, pan))
+	}
+	norm := func(s string) string { return strings.NewReplacer("float64(", "", "int(", "", ")", "").Replace(s) }
+	if got := strings.Join(log, " "); out != want || norm(got) != norm(strings.Join(wantLog, " ")) {
+		return core.Violation("callbacks", fmt.Sprintf("%q renders %q with the callbacks seeing %q; want %q and %q", src, out, got, want, strings.Join(wantLog, " ")))
+	}
+	return core.Okay(true, out)
+}
+
 func c05Run(c core.Case) core.Result {
 	if c.Fam == "unpost" {
 		return c05UnaryPostfix(c.N[0])
+	}
+	if c.Fam == "ladder" {
+		return c05Ladder(c.N[0], c.N[1], c.N[2])
 	}
 	if c.Fam == "rangein" {
 		return c05RangeIn(c.N[0], c.N[1], c.N[2])
@@ -1015,6 +1085,13 @@ func c05Levels(tier string) []core.Level {
 			for i := 0; i < c05UnaryPostfixN; i++ {
 				emit(core.Case{Fam: "unpost", N: []int{i}})
 			}
+			for shape := 0; shape < 2; shape++ {
+				for k := 1; k <= 6; k++ {
+					for bits := 0; bits < 1<<uint(k); bits++ {
+						emit(core.Case{Fam: "ladder", N: []int{shape, k, bits}})
+					}
+				}
+			}
 		}},
 		{Name: "every operand alone (20 values as literal and as variable), every unary operator on it, array/hash literal and access forms", Gen: func(emit func(core.Case)) {
 			for i := 0; i < nOps; i++ {
@@ -1029,6 +1106,10 @@ func c05Levels(tier string) []core.Level {
 				emit(core.Case{Fam: "term", N: []int{14, 4, 0, i}})               // [x].0
 				emit(core.Case{Fam: "term", N: []int{8, 5, 0, i, 0, 2, 0, 2}})    // [x, 1][1]
 				emit(core.Case{Fam: "term", N: []int{8, 0, i, 0, 0}})             // x[0]
+				for j := 0; j < nOps; j++ {
+					emit(core.Case{Fam: "term", N: []int{8, 0, i, 0, j}})             // x[y]: every operand as the subscript (true / false / integral floats select 1 / 0 / that element)
+					emit(core.Case{Fam: "term", N: []int{8, 5, 0, i, 0, 2, 0, j}})    // [x, 1][y]
+				}
 				emit(core.Case{Fam: "term", N: []int{7, 0, i}})                   // x.k
 				emit(core.Case{Fam: "term", N: []int{13, 3, 0, 18, 0, i, 0, 22}}) // "a#{x}b"
 				// a string consisting of exactly one interpolation is still a string: type-sensitive consumers
